@@ -509,6 +509,22 @@ fn cli_in(input: &Value, bin: &str, dir: &PathBuf) -> R {
         if let Some(k) = shim.get("slow_after_fail_ms").and_then(Value::as_u64) {
             cmd.env("HDW_SHIM_SLOW_AFTER_FAIL", k.to_string());
         }
+        // scheduled mode: the order and content of the environment's answers (a behaviour of the TLA+ model)
+        if let Some(steps) = shim.get("schedule").and_then(Value::as_array) {
+            let mut text = String::new();
+            for st in steps {
+                text.push_str(&format!(
+                    "{} {} {}\n",
+                    st.get("ord").and_then(Value::as_u64).ok_or("schedule ord")?,
+                    st.get("rc").and_then(Value::as_i64).ok_or("schedule rc")?,
+                    st.get("hex").and_then(Value::as_str).unwrap_or("")
+                ));
+            }
+            let path = dir.join("schedule.txt");
+            fs::write(&path, text).map_err(|e| e.to_string())?;
+            cmd.env("HDW_SHIM_SCHEDULE", &path);
+            cmd.env("HDW_SHIM_PATIENCE", shim.get("patience_ms").and_then(Value::as_u64).unwrap_or(5000).to_string());
+        }
     }
     let stdin = match input.get("stdin") {
         Some(Value::Null) | None => None,
@@ -586,10 +602,20 @@ fn cli_in(input: &Value, bin: &str, dir: &PathBuf) -> R {
     o["timeout"] = json!(timed_out);
     if input.get("shim").filter(|x| !x.is_null()).is_some() {
         let mut reqs = Vec::new();
+        let mut diverged = Vec::new();
         if let Ok(text) = fs::read_to_string(&log_path) {
             for line in text.lines() {
                 let f = line.split(' ').collect::<Vec<_>>();
-                if f.len() >= 4 {
+                if f[0] == "D" || f[0] == "O" {
+                    // scheduled mode.  D: the step at position `pos` (for thread ordinal `ord`) was never asked for;
+                    // O: thread ordinal `ord` was still asking long after the last scheduled answer
+                    diverged.push(json!({
+                        "kind": f[0],
+                        "tid": f.get(1).and_then(|x| x.parse::<u64>().ok()).unwrap_or(0),
+                        "pos": f.get(2).and_then(|x| x.parse::<u64>().ok()).unwrap_or(0),
+                        "ord": f.get(3).and_then(|x| x.parse::<u64>().ok()).unwrap_or(0),
+                    }));
+                } else if f.len() >= 4 {
                     reqs.push(json!({
                         "seq": f[0].parse::<u64>().unwrap_or(0),
                         "tid": f[1].parse::<u64>().unwrap_or(0),
@@ -601,6 +627,9 @@ fn cli_in(input: &Value, bin: &str, dir: &PathBuf) -> R {
             }
         }
         o["reqs"] = Value::Array(reqs);
+        if input["shim"].get("schedule").is_some() {
+            o["diverged"] = Value::Array(diverged);
+        }
     }
     Ok(o)
 }
